@@ -101,3 +101,119 @@ def run(res, facts, tier):
                 r2.ok(site, why)
             else:
                 r2.violation(site, 'node added without a dominating NodeTester verdict', common.file_line(a, call))
+
+    r3_ancestor_search(res, facts)
+
+
+def natural_loops(cfg):
+    """{loop-head node id: set of node ids in the loop} for the structured CFG (back edges end in a LoopHead join)"""
+    preds = cfg.preds()
+    loops = {}
+    for h in cfg.nodes:
+        if h.ast is None or h.ast.get('k') != 'LoopHead':
+            continue
+        fwd = cfg.reachable_avoiding([h], lambda m: False)
+        body = {h.id}
+        work = [p for p in preds.get(h.id, []) if p.id in fwd and p.id != h.id and h.id in cfg.reachable_avoiding([p], lambda m: False)]
+        # predecessors of the head that the head itself reaches are the back-edge sources
+        work = [p for p in work if p.id in cfg.reachable_avoiding([h], lambda m: False)]
+        while work:
+            n = work.pop()
+            if n.id in body:
+                continue
+            body.add(n.id)
+            work.extend(p for p in preds.get(n.id, []) if p.id in fwd)
+        loops[h.id] = body
+    return loops
+
+
+def r3_ancestor_search(res, facts):
+    """'a[p]//b': SOME ancestor must pass node test and predicates, so the walk up the ancestors may stop with a positive score only
+    at an ancestor whose predicates have been evaluated inside the loop; a predicate check after the loop cannot resume the walk."""
+    from ..mast import CFG, pp
+    r3 = res.rule('C09-R3', "stepPattern, steps followed by '//' (eMATCH_ANY_ANCESTOR, eMATCH_ANY_ANCESTOR_WITH_PREDICATE): the loop that climbs the ancestors "
+                  'leaves with a positive score only on paths that evaluated doStepPredicate for that ancestor in the same iteration; every other exit is '
+                  '"no more ancestors" or a failed verdict; the post-switch predicate evaluation is switched off for these cases', floor=3)
+    a = facts.asts('XPath::stepPattern')[0]
+    cfg = CFG(a)
+    loops = natural_loops(cfg)
+    # nodes belonging to the eMATCH_ANY_ANCESTOR case group: reachable from its CaseLabel up to the switch exit
+    labels = [n for n in cfg.nodes if n.ast is not None and n.ast.get('k') == 'CaseLabel']
+    sw = [n for n in cfg.nodes if n.ast is not None and n.ast.get('k') == 'SwitchCond']
+    if not labels or not sw:
+        raise AnalysisBroken('stepPattern: no step-kind switch found')
+    target = None
+    for n in labels:
+        names = {strip_casts(l).get('n') for l in n.ast.get('labels', []) if l is not None}
+        if 'eMATCH_ANY_ANCESTOR' in names:
+            target = n
+            if 'eMATCH_ANY_ANCESTOR_WITH_PREDICATE' not in names:
+                r3.violation('stepPattern: case labels', 'eMATCH_ANY_ANCESTOR and eMATCH_ANY_ANCESTOR_WITH_PREDICATE are no longer handled by the same case', common.file_line(a, n.ast))
+    if target is None:
+        raise AnalysisBroken('stepPattern: no case for eMATCH_ANY_ANCESTOR')
+    other_labels = {n.id for n in labels if n is not target}
+    # the switch exit: first node reachable from every case label
+    reach = [cfg.reachable_avoiding([n], lambda m: False) for n in labels]
+    common_nodes = set.intersection(*[set(x) for x in reach])
+    region = {i for i in cfg.reachable_avoiding([target], lambda m: m.id in common_nodes or m.id in other_labels) if i not in common_nodes}
+
+    def is_pred(n):
+        return n.ast is not None and any((c.get('n') or '') == 'doStepPredicate' for c in calls(n.ast))
+
+    def is_climb(n):
+        return n.ast is not None and n.kind == 'stmt' and n.ast.get('k') == 'Bin' and n.ast['op'] == '=' and pp(strip_casts(n.ast['lhs'])) == 'context' and any((c.get('n') or '') in ('getParentOfNode', 'getParentNode') for c in calls(n.ast['rhs']))
+
+    def is_verdict(n):
+        return n.ast is not None and any(c['k'] == 'OpCall' and c['op'] == '()' and 'NodeTester' in short(c.get('cls') or '') for c in calls(n.ast))
+    found = 0
+    for h, body in loops.items():
+        if h not in region:
+            continue
+        if not any(is_climb(cfg.nodes[i]) for i in body) or not any(is_verdict(cfg.nodes[i]) for i in body):
+            continue
+        found += 1
+        head = cfg.nodes[h]
+        nopred = cfg.reachable_avoiding([head], lambda m: is_pred(m) or m.id not in body)
+        for i in sorted(body):
+            u = cfg.nodes[i]
+            for v in u.succ:
+                if v.id in body:
+                    continue
+                # an exit edge u -> v
+                if u.kind == 'cond':
+                    core, eff = common.norm_atom(u.ast, u.cond_true is v)
+                    txt = pp(core)
+                else:
+                    core, eff, txt = None, None, pp(u.ast)
+                site = 'stepPattern any-ancestor loop: exit after %s%s' % (txt[:50], '' if eff is None else (' [%s]' % ('true' if eff else 'false')))
+                fail_exit = False
+                if core is not None and core.get('k') == 'Bin' and core['op'] in ('==', '!='):
+                    l, rr = pp(strip_casts(core['lhs'])), pp(strip_casts(core['rhs']))
+                    pair = {l, rr}
+                    is_eq = (core['op'] == '==') == eff
+                    if pair == {'context', '0'} and is_eq:
+                        fail_exit = 'no more ancestors'
+                    elif pair == {'eMatchScoreNone', 'score'} and is_eq:
+                        fail_exit = 'failed verdict'
+                if fail_exit:
+                    r3.ok(site, fail_exit)
+                elif i in nopred:
+                    r3.violation(site, "the walk up the ancestors stops here with a positive node-test score although the step's predicates have not been evaluated for this ancestor "
+                                 "in this iteration: 'a[p]//b' would look only at the nearest 'a' ancestor", common.file_line(a, u.ast))
+                else:
+                    r3.ok(site, 'predicates evaluated in this iteration')
+    if found == 0:
+        r3.violation('stepPattern any-ancestor case', 'no loop that climbs the ancestors and applies the node test', common.file_line(a, target.ast))
+    # fDoPredicates protocol: the case switches the common predicate evaluation off, and that evaluation is guarded by the flag
+    flag_off = [n for n in cfg.nodes if n.id in region and n.ast is not None and n.kind == 'stmt' and n.ast.get('k') == 'Bin' and n.ast['op'] == '=' and pp(strip_casts(n.ast['lhs'])) == 'fDoPredicates' and strip_casts(n.ast['rhs']).get('cv') == 0]
+    post = [n for n in cfg.nodes if is_pred(n) and n.id in common_nodes]
+    must = common.must_conds(cfg)
+    if post:
+        guarded = all(any(pp(common.norm_atom(at, br)[0]) == 'fDoPredicates' and common.norm_atom(at, br)[1] for at, br in must.get(n.id, [])) for n in post)
+        if flag_off and guarded:
+            r3.ok('stepPattern: common predicate evaluation is under fDoPredicates, which the any-ancestor case clears')
+        elif not flag_off and not guarded:
+            r3.ok('stepPattern: predicates evaluated again after the switch (idempotent)')
+        else:
+            r3.violation('stepPattern: fDoPredicates protocol', 'flag cleared by the case: %s; common evaluation guarded by the flag: %s' % (bool(flag_off), guarded), common.file_line(a))
+    return r3
